@@ -252,6 +252,19 @@ func bindPlaceholders(g *Gen, docs map[string]*Node) {
 			g.Names.Bind(k, base+[]string{"/{id}", "s", "/sub", "{id}"}[g.r.Intn(4)])
 			continue
 		}
+		if k == "G_3" || k == "G_4" {
+			// the generated name of the allOf member definitions/N_8/allOf/1, and its case variant
+			base := swag.ToJSONName(g.Names.ToConcrete["N_8"] + " allOf 1")
+			if k == "G_4" {
+				base = swapCase(base)
+			}
+			if base == "" || g.usedConcrete[base] || reservedWords[base] {
+				base = g.concreteName(ncPlain)
+			}
+			g.usedConcrete[base] = true
+			g.Names.Bind(k, base)
+			continue
+		}
 		if k == "G_1" || k == "G_2" {
 			// G_1: the name full flattening generates for definitions/N_8/properties/N_9 (relation computed outside the repository);
 			// G_2: its case variant.  When the relation cannot be planted (clash with another name) the instance has no collision.
@@ -451,7 +464,7 @@ func flattenScenarios(tier string, seed int64, scratch string) ([]*Case, []strin
 		switch {
 		case fs.T == "anonimport":
 			collider = "N_2"
-		case fs.C != "none" && fs.C != "gennames":
+		case fs.C != "none" && fs.C != "gennames" && fs.C != "gennames2":
 			collider = "N_1"
 		}
 		if _, bound := g.Names.ToConcrete[collider]; collider != "" && !bound {
